@@ -845,6 +845,9 @@ class ModuleVistor(NodeVisitor):
         if is_property:
             # handle property and skip child nodes.
             attr = self._handlePropertyDef(node, doc_node, lineno)
+            # A property is not an assignment: a string statement that follows it
+            # is not its docstring (the interpreter reports the getter's).
+            self.builder.currentAttr = None
             if is_classmethod:
                 attr.report(f'{attr.fullName()} is both property and classmethod')
             if is_staticmethod:
